@@ -77,7 +77,7 @@ theorem C10_probe_entries_complete :
 
 /-- non-vacuity: eight of the nine ways leave the output closed; on the open session every
 transmit entry reaches the connection -/
-example : (Probe.ways.filter fun w => (Probe.stateAfter w).outClosed).length = 8 := by decide
+example : (Probe.ways.filter fun w => (Probe.stateAfter w).outClosed).length = 9 := by decide
 example : ∀ e ∈ Probe.entries, e.2 ≠ .read → (Probe.cell (Probe.stateAfter ⟨"open", false, []⟩) e).2.2 = true := by decide
 
 /-- **probe fact, closure over the API** (round E; replaces the call-graph facts `wireFns` /
